@@ -146,7 +146,7 @@ Proof. repeat split. Qed.
 Lemma incr_fail_st_like t : st_like t -> st_like (incr_fail t).
 Proof. intros (A & B & C & D). repeat split; assumption. Qed.
 
-Definition idle_empty (q : qstate) : Prop := q_items q = [] /\ q_running q = None.
+Definition idle_empty (q : qstate) : Prop := q_items q = [] /\ q_running q = None /\ q_delay q = false.
 
 Lemma sched_tasks_none cfg c : sched_tasks cfg [] c = [].
 Proof. unfold sched_tasks. induction cfg as [|h cfg IH]; [reflexivity|]. simpl. exact IH. Qed.
@@ -212,9 +212,9 @@ Qed.
 Lemma advance_all_idle cfg qok : forall Qs sh,
   Forall idle_empty Qs -> advance_all cfg qok Qs sh = (Qs, sh).
 Proof.
-  induction Qs as [|q r IH]; intros sh H; [reflexivity|]. inversion H as [|? ? [Hi Hr] Hrest]; subst.
+  induction Qs as [|q r IH]; intros sh H; [reflexivity|]. inversion H as [|? ? [Hi [Hr Hd]] Hrest]; subst.
   simpl. unfold is_running. rewrite Hr, Hi. unfold fuel_for. simpl.
-  rewrite (IH sh Hrest). f_equal. f_equal. rewrite (eta_q q) at 2. now rewrite Hi, Hr.
+  rewrite (IH sh Hrest). f_equal. f_equal. rewrite (eta_q q) at 2. now rewrite Hi, Hr, Hd.
 Qed.
 
 Section StartupFirst.
@@ -223,8 +223,8 @@ Variable cfg : config.
 Hypothesis Hnoq : has_queue (boot_queues cfg) no_queue = false.
 
 Inductive J (s : state) : Prop :=
-| mkJ (j_sts j_others : list task) (j_mr : option bool) (j_qs : list qstate)
-      (j_queues : queues s = mkQ 0 (j_sts ++ j_others) j_mr :: j_qs)
+| mkJ (j_sts j_others : list task) (j_mr : option bool) (j_md : bool) (j_qs : list qstate)
+      (j_queues : queues s = mkQ 0 (j_sts ++ j_others) j_mr j_md :: j_qs)
       (j_st : Forall st_like j_sts)
       (j_oth : Forall (fun t => is_st t = false) j_others)
       (j_names : names (queues s) = names (boot_queues cfg))
@@ -239,8 +239,8 @@ Lemma noq s : names (queues s) = names (boot_queues cfg) -> has_queue (queues s)
 Proof. intros H. rewrite (has_queue_names _ _ H). exact Hnoq. Qed.
 
 (* the workers' round on a state of shape J *)
-Lemma advance_J s sts others mr Qs :
-  queues s = mkQ 0 (sts ++ others) mr :: Qs ->
+Lemma advance_J s sts others mr md Qs :
+  queues s = mkQ 0 (sts ++ others) mr md :: Qs ->
   Forall st_like sts -> Forall (fun t => is_st t = false) others ->
   names (queues s) = names (boot_queues cfg) ->
   (sts <> [] -> sched_on s = [] /\ unlocked s = [] /\ mon_started s = [] /\ Forall idle_empty Qs
@@ -249,7 +249,7 @@ Lemma advance_J s sts others mr Qs :
 Proof.
   intros Hq Hst Hoth Hn Hp. unfold advance. destruct (stopped s) eqn:St.
   - (* stopped: nothing moves *)
-    apply (mkJ s sts others mr Qs); auto. intros Hne. destruct (Hp Hne) as (A & B & C & D & E).
+    apply (mkJ s sts others mr md Qs); auto. intros Hne. destruct (Hp Hne) as (A & B & C & D & E).
     repeat split; auto. intros F; congruence.
   - rewrite Hq. cbn [advance_all]. unfold is_running at 1. cbn [q_running q_items q_name].
     pose proof (noq s Hn) as Hnq. rewrite Hq in Hnq.
@@ -258,141 +258,180 @@ Proof.
       simpl app in *.
       destruct mr as [b|].
       * destruct (advance_all cfg _ Qs _) as [Qs' sh'] eqn:EA. cbn [fst snd].
-        pose proof (advance_all_names cfg (has_queue (mkQ 0 others (Some b) :: Qs)) Qs
+        pose proof (advance_all_names cfg (has_queue (mkQ 0 others (Some b) md :: Qs)) Qs
                       (mkSh (sched_on s) (unlocked s) (mon_started s))) as NA. rewrite EA in NA. simpl in NA.
-        apply (mkJ _ [] others (Some b) Qs'); simpl; auto; [|intros F; congruence].
+        apply (mkJ _ [] others (Some b) md Qs'); simpl; auto; [|intros F; congruence].
         rewrite <- Hn, Hq. simpl. now rewrite NA.
-      * pose proof (advance_q_not_st cfg (has_queue (mkQ 0 others None :: Qs)) (fuel_for cfg others) others
+      * pose proof (advance_q_not_st cfg (has_queue (mkQ 0 others None md :: Qs)) (fuel_for cfg others) others
                       (mkSh (sched_on s) (unlocked s) (mon_started s)) Hoth) as NS.
         destruct (advance_q _ cfg _ others _) as [[items run] sh1]. simpl in NS.
         destruct (advance_all cfg _ Qs sh1) as [Qs' sh'] eqn:EA. cbn [fst snd].
-        pose proof (advance_all_names cfg (has_queue (mkQ 0 others None :: Qs)) Qs sh1) as NA.
+        pose proof (advance_all_names cfg (has_queue (mkQ 0 others None md :: Qs)) Qs sh1) as NA.
         rewrite EA in NA. simpl in NA.
-        apply (mkJ _ [] items run Qs'); simpl; auto; [|intros F; congruence].
+        apply (mkJ _ [] items run false Qs'); simpl; auto; [|intros F; congruence].
         rewrite <- Hn, Hq. simpl. now rewrite NA.
     + (* an onStartup task heads main: it is (or gets) executed, nothing else moves *)
       destruct (Hp ltac:(discriminate)) as (A & B & C & D & E).
       destruct E as [E|E]; subst mr.
       * unfold fuel_for. simpl app. rewrite advance_q_startup; [|now inversion Hst|exact Hnq].
         rewrite advance_all_idle by exact D. cbn [fst snd s_sched_on s_unlocked s_mon_started].
-        apply (mkJ _ (t :: sts') others (Some false) Qs); simpl; auto.
+        apply (mkJ _ (t :: sts') others (Some false) false Qs); simpl; auto.
         -- rewrite <- Hn, Hq. reflexivity.
         -- intros _. rewrite A, B, C. repeat split; auto.
       * rewrite advance_all_idle by exact D. cbn [fst snd s_sched_on s_unlocked s_mon_started].
-        apply (mkJ _ (t :: sts') others (Some false) Qs); simpl; auto.
+        apply (mkJ _ (t :: sts') others (Some false) md Qs); simpl; auto.
         -- rewrite <- Hn, Hq. reflexivity.
         -- intros _. rewrite A, B, C. repeat split; auto.
 Qed.
 
-Lemma append_task_head_main Qs items mr t :
+Lemma append_task_head_main Qs items mr md t :
   ~ In 0%N (names Qs) ->
-  append_task (mkQ 0 items mr :: Qs) t
-  = if N.eqb 0 (t_queue t) then mkQ 0 (items ++ [t]) mr :: Qs else mkQ 0 items mr :: append_task Qs t.
+  append_task (mkQ 0 items mr md :: Qs) t
+  = if N.eqb 0 (t_queue t) then mkQ 0 (items ++ [t]) mr md :: Qs else mkQ 0 items mr md :: append_task Qs t.
 Proof. intros _. simpl. destruct (N.eqb 0 (t_queue t)); reflexivity. Qed.
 
-Lemma append_tasks_main ts : forall Qs items mr,
+Lemma append_tasks_main ts : forall Qs items mr md,
   Forall (fun t => is_st t = false) ts ->
-  exists extra Qs', append_tasks (mkQ 0 items mr :: Qs) ts = mkQ 0 (items ++ extra) mr :: Qs'
+  exists extra Qs', append_tasks (mkQ 0 items mr md :: Qs) ts = mkQ 0 (items ++ extra) mr md :: Qs'
                     /\ Forall (fun t => is_st t = false) extra.
 Proof.
-  unfold append_tasks. induction ts as [|t ts IH]; intros Qs items mr H.
+  unfold append_tasks. induction ts as [|t ts IH]; intros Qs items mr md H.
   - exists [], Qs. simpl. rewrite app_nil_r. split; [reflexivity | constructor].
-  - inversion H as [|? ? Ht Hts]; subst. cbn [fold_left append_task q_name q_items q_running].
+  - inversion H as [|? ? Ht Hts]; subst. cbn [fold_left append_task q_name q_items q_running q_delay].
     destruct (N.eqb 0 (t_queue t)).
-    + destruct (IH Qs (items ++ [t]) mr Hts) as (extra & Qs' & E1 & E2).
+    + destruct (IH Qs (items ++ [t]) mr md Hts) as (extra & Qs' & E1 & E2).
       exists (t :: extra), Qs'. rewrite E1, <- app_assoc. split; [reflexivity | now constructor].
-    + destruct (IH (append_task Qs t) items mr Hts) as (extra & Qs' & E1 & E2).
+    + destruct (IH (append_task Qs t) items mr md Hts) as (extra & Qs' & E1 & E2).
       exists extra, Qs'. split; assumption.
+Qed.
+
+Lemma finish_J s q ok wait : J s ->
+  J (advance cfg (let (qs, unl) := finish_in (queues s) q ok (stopped s) wait (unlocked s) in
+                  mkSt qs (sched_on s) unl (mon_started s) (stopped s))).
+Proof.
+  intros [sts others mr md Qs Hq Hst Hoth Hn Hp].
+  pose proof (finish_in_names (queues s) q ok (stopped s) wait (unlocked s)) as FN.
+  destruct sts as [|t0 sts'].
+  - (* no onStartup task: only the shape of main matters *)
+    simpl app in *. rewrite Hq in *. cbn [finish_in] in *. cbn [q_name q_running q_items q_delay] in *.
+    destruct (N.eqb 0 q).
+    + destruct mr as [sy|].
+      * destruct others as [|t rest].
+        -- apply (advance_J _ [] [] (Some sy) md Qs); simpl; auto; try (intros F; congruence).
+        -- inversion Hoth as [|? ? Ht Hr]; subst. destruct md.
+           ++ apply (advance_J _ [] (t :: rest) (Some sy) true Qs); simpl; auto; try (intros F; congruence).
+           ++ destruct (stopped s).
+              ** apply (advance_J _ [] (t :: rest) None false Qs); simpl; auto; try (intros F; congruence).
+              ** destruct (ok || t_allow t).
+                 --- apply (advance_J _ [] rest None false Qs); simpl; auto; try (intros F; congruence).
+                 --- destruct wait.
+                     +++ apply (advance_J _ [] (incr_fail t :: rest) (Some false) true Qs); simpl; auto; try (intros F; congruence).
+                     +++ apply (advance_J _ [] (incr_fail t :: rest) None false Qs); simpl; auto; try (intros F; congruence).
+      * apply (advance_J _ [] others None md Qs); simpl; auto; try (intros F; congruence).
+    + pose proof (finish_in_names Qs q ok (stopped s) wait (unlocked s)) as FN2.
+      destruct (finish_in Qs q ok (stopped s) wait (unlocked s)) as [Qs' unl'] eqn:EF. simpl in FN2.
+      apply (advance_J _ [] others mr md Qs'); simpl; auto; try (intros F; congruence).
+      rewrite <- Hn. simpl. now rewrite FN2.
+  - destruct (Hp ltac:(discriminate)) as (A & B & C & D & E & G).
+    inversion Hst as [|? ? Ht0 Hsts]; subst.
+    assert (Hidle : forall ok' stp w unl, finish_in Qs q ok' stp w unl = (Qs, unl)).
+    { clear -D. induction Qs as [|x r IH]; intros; [reflexivity|]. inversion D as [|? ? [Hi [Hr Hd]] Hrest]; subst.
+      simpl. destruct (N.eqb (q_name x) q); [now rewrite Hr|]. now rewrite (IH Hrest). }
+    rewrite Hq in *. cbn [finish_in] in *. cbn [q_name q_running q_items q_delay] in *.
+    destruct (N.eqb 0 q).
+    + destruct E as [E|E]; subst mr.
+      * apply (advance_J _ (t0 :: sts') others None md Qs); simpl; auto.
+        intros _. rewrite ?andb_false_r, ?A, ?B, ?C. repeat split; auto.
+      * simpl app. destruct md.
+        -- apply (advance_J _ (t0 :: sts') others (Some false) true Qs); simpl; auto.
+           intros _. rewrite ?andb_false_r, ?A, ?B, ?C. repeat split; auto.
+        -- destruct Ht0 as (T1 & T2 & T3 & T4). rewrite T4, orb_false_r.
+           assert (Hst0 : st_like t0) by (repeat split; auto).
+           destruct (stopped s) eqn:Ss.
+           ++ apply (advance_J _ (t0 :: sts') others None false Qs); simpl; auto.
+              intros _. rewrite ?andb_false_r, ?A, ?B, ?C. repeat split; auto.
+           ++ destruct ok.
+              ** simpl. apply (advance_J _ sts' others None false Qs); simpl; auto.
+                 intros _. rewrite ?andb_false_r, ?A, ?B, ?C. repeat split; auto.
+              ** simpl. destruct wait.
+                 --- apply (advance_J _ (incr_fail t0 :: sts') others (Some false) true Qs); simpl; auto;
+                       try (constructor; [apply incr_fail_st_like; exact Hst0 | exact Hsts]);
+                       try (intros _; rewrite ?andb_false_r, ?A, ?B, ?C; repeat split; auto).
+                 --- apply (advance_J _ (incr_fail t0 :: sts') others None false Qs); simpl; auto;
+                       try (constructor; [apply incr_fail_st_like; exact Hst0 | exact Hsts]);
+                       try (intros _; rewrite ?andb_false_r, ?A, ?B, ?C; repeat split; auto).
+    + rewrite Hidle. apply (advance_J _ (t0 :: sts') others mr md Qs); simpl; auto;
+        try (intros _; rewrite ?andb_false_r, ?A, ?B, ?C; repeat split; auto).
+Qed.
+
+Lemma elapse_in_idle Qs q : Forall idle_empty Qs -> elapse_in Qs q = Qs.
+Proof.
+  induction Qs as [|x r IH]; intros D; [reflexivity|]. inversion D as [|? ? [Hi [Hr Hd]] Hrest]; subst.
+  simpl. rewrite Hd. destruct (N.eqb (q_name x) q); [reflexivity|]. now rewrite IH.
 Qed.
 
 Lemma step_J s a : J s -> J (step cfg s a).
 Proof.
-  intros [sts others mr Qs Hq Hst Hoth Hn Hp]. unfold step.
-  destruct a.
+  intros HJ. unfold step. destruct a; try (apply finish_J; exact HJ).
+  all: destruct HJ as [sts others mr md Qs Hq Hst Hoth Hn Hp].
   - (* Boot on a booted operator *)
-    rewrite Hq. apply (advance_J _ sts others mr Qs); auto.
+    rewrite Hq. apply (advance_J _ sts others mr md Qs); auto.
     intros Hne. destruct (Hp Hne) as (A & B & C & D & E & _). auto.
   - (* Tick *)
     destruct sts as [|t0 sts'].
     + simpl app in *.
-      destruct (append_tasks_main (sched_tasks cfg (sched_on s) c) Qs others mr (sched_tasks_not_st _ _ _))
+      destruct (append_tasks_main (sched_tasks cfg (sched_on s) c) Qs others mr md (sched_tasks_not_st _ _ _))
         as (extra & Qs' & E1 & E2).
-      apply (advance_J _ [] (others ++ extra) mr Qs'); simpl; auto.
+      apply (advance_J _ [] (others ++ extra) mr md Qs'); simpl; auto.
       * rewrite Hq. exact E1.
       * apply Forall_app; auto.
       * now rewrite append_tasks_names.
       * intros F; congruence.
     + destruct (Hp ltac:(discriminate)) as (A & B & C & D & E & _).
       rewrite A, sched_tasks_none. unfold append_tasks. cbn [fold_left].
-      apply (advance_J _ (t0 :: sts') others mr Qs); simpl; auto.
+      apply (advance_J _ (t0 :: sts') others mr md Qs); simpl; auto.
   - (* KubeEv *)
     destruct sts as [|t0 sts'].
     + simpl app in *.
-      destruct (append_tasks_main (kube_tasks cfg (unlocked s) mon obj) Qs others mr (kube_tasks_not_st _ _ _ _))
+      destruct (append_tasks_main (kube_tasks cfg (unlocked s) mon obj) Qs others mr md (kube_tasks_not_st _ _ _ _))
         as (extra & Qs' & E1 & E2).
-      apply (advance_J _ [] (others ++ extra) mr Qs'); simpl; auto.
+      apply (advance_J _ [] (others ++ extra) mr md Qs'); simpl; auto.
       * rewrite Hq. exact E1.
       * apply Forall_app; auto.
       * now rewrite append_tasks_names.
       * intros F; congruence.
     + destruct (Hp ltac:(discriminate)) as (A & B & C & D & E & _).
       rewrite B. unfold kube_tasks, append_tasks. cbn [mem_N existsb fold_left].
-      apply (advance_J _ (t0 :: sts') others mr Qs); simpl; auto.
-  - (* Finish *)
-    pose proof (finish_in_names (queues s) q ok (stopped s) (unlocked s)) as FN.
-    destruct sts as [|t0 sts'].
-    + (* no onStartup task: only the shape of main matters *)
-      simpl app in *. rewrite Hq in *. cbn [finish_in] in *. cbn [q_name q_running q_items] in *.
-      destruct (N.eqb 0 q).
-      * destruct mr as [sy|].
-        -- destruct others as [|t rest].
-           ++ apply (advance_J _ [] [] (Some sy) Qs); simpl; auto; try (intros F; congruence).
-           ++ inversion Hoth as [|? ? Ht Hr]; subst.
-              destruct (stopped s).
-              ** apply (advance_J _ [] (t :: rest) None Qs); simpl; auto; try (intros F; congruence).
-              ** destruct (ok || t_allow t).
-                 --- apply (advance_J _ [] rest None Qs); simpl; auto; try (intros F; congruence).
-                 --- apply (advance_J _ [] (incr_fail t :: rest) None Qs); simpl; auto; try (intros F; congruence).
-        -- apply (advance_J _ [] others None Qs); simpl; auto; try (intros F; congruence).
-      * pose proof (finish_in_names Qs q ok (stopped s) (unlocked s)) as FN2.
-        destruct (finish_in Qs q ok (stopped s) (unlocked s)) as [Qs' unl'] eqn:EF. simpl in FN2.
-        apply (advance_J _ [] others mr Qs'); simpl; auto; try (intros F; congruence).
-        rewrite <- Hn. simpl. now rewrite FN2.
-    + destruct (Hp ltac:(discriminate)) as (A & B & C & D & E & G).
-      inversion Hst as [|? ? Ht0 Hsts]; subst.
-      assert (Hidle : forall ok' stp unl, finish_in Qs q ok' stp unl = (Qs, unl)).
-      { clear -D. induction Qs as [|x r IH]; intros; [reflexivity|]. inversion D as [|? ? [Hi Hr] Hrest]; subst.
-        simpl. destruct (N.eqb (q_name x) q); [now rewrite Hr|]. now rewrite (IH Hrest). }
-      rewrite Hq in *. cbn [finish_in] in *. cbn [q_name q_running q_items] in *.
-      destruct (N.eqb 0 q).
-      * destruct E as [E|E]; subst mr.
-        -- apply (advance_J _ (t0 :: sts') others None Qs); simpl; auto.
-           intros _. rewrite ?andb_false_r, ?A, ?B, ?C. repeat split; auto.
-        -- simpl app. destruct Ht0 as (T1 & T2 & T3 & T4). rewrite T4, orb_false_r.
-           assert (Hst0 : st_like t0) by (repeat split; auto).
-           destruct (stopped s) eqn:Ss.
-           ++ apply (advance_J _ (t0 :: sts') others None Qs); simpl; auto.
-              intros _. rewrite ?andb_false_r, ?A, ?B, ?C. repeat split; auto.
-           ++ destruct ok.
-              ** simpl. apply (advance_J _ sts' others None Qs); simpl; auto.
-                 intros _. rewrite ?andb_false_r, ?A, ?B, ?C. repeat split; auto.
-              ** simpl. apply (advance_J _ (incr_fail t0 :: sts') others None Qs); simpl; auto;
-                   try (constructor; [apply incr_fail_st_like; exact Hst0 | exact Hsts]);
-                   try (intros _; rewrite ?andb_false_r, ?A, ?B, ?C; repeat split; auto).
-      * rewrite Hidle. apply (advance_J _ (t0 :: sts') others mr Qs); simpl; auto;
-          try (intros _; rewrite ?andb_false_r, ?A, ?B, ?C; repeat split; auto).
+      apply (advance_J _ (t0 :: sts') others mr md Qs); simpl; auto.
   - (* Stop *)
-    apply (advance_J _ sts others mr Qs); simpl; auto;
+    apply (advance_J _ sts others mr md Qs); simpl; auto;
       try (intros Hne; destruct (Hp Hne) as (A & B & C & D & E & _); auto).
+  - (* Elapse *)
+    cbn [queues sched_on unlocked mon_started stopped]. rewrite Hq. cbn [elapse_in q_name q_delay q_items].
+    destruct (N.eqb 0 q).
+    + destruct md.
+      * apply (advance_J _ sts others None false Qs); simpl; auto.
+        -- rewrite <- Hn, Hq. reflexivity.
+        -- intros Hne. destruct (Hp Hne) as (A & B & C & D & E & _). repeat split; auto.
+      * apply (advance_J _ sts others mr false Qs); simpl; auto.
+        -- rewrite <- Hn, Hq. reflexivity.
+        -- intros Hne. destruct (Hp Hne) as (A & B & C & D & E & _). auto.
+    + destruct sts as [|t0 sts'].
+      * apply (advance_J _ [] others mr md (elapse_in Qs q)); simpl; auto; try (intros F; congruence).
+        rewrite <- Hn, Hq. simpl. now rewrite elapse_in_names.
+      * destruct (Hp ltac:(discriminate)) as (A & B & C & D & E & _).
+        rewrite (elapse_in_idle Qs q D).
+        apply (advance_J _ (t0 :: sts') others mr md Qs); simpl; auto.
+        rewrite <- Hn, Hq. reflexivity.
 Qed.
 
-Lemma boot_queues_head : exists Qs, boot_queues cfg = mkQ 0 (boot_main cfg) None :: Qs.
+Lemma boot_queues_head : exists Qs, boot_queues cfg = mkQ 0 (boot_main cfg) None false :: Qs.
 Proof.
   unfold boot_queues.
   assert (G : forall l qs x, exists Qs, fold_left add_queue l (x :: qs) = x :: Qs).
   { induction l as [|n l IH]; intros qs x; [now exists qs|]. simpl. unfold add_queue at 2.
     destruct (has_queue (x :: qs) n); [apply IH|]. simpl. apply IH. }
-  destruct (G (flat_map (fun h => map sb_queue (h_sched h)) cfg) [] (mkQ 0 (boot_main cfg) None)) as [Q1 E1].
+  destruct (G (flat_map (fun h => map sb_queue (h_sched h)) cfg) [] (mkQ 0 (boot_main cfg) None false)) as [Q1 E1].
   rewrite E1. apply G.
 Qed.
 
@@ -400,7 +439,7 @@ Lemma step_preboot s a : preboot s -> preboot (step cfg s a) \/ J (step cfg s a)
 Proof.
   intros (Q & A & B & C). unfold step. destruct a.
   - right. rewrite Q. destruct boot_queues_head as [Qs E].
-    apply (advance_J _ (map startup_task (startup_hooks cfg)) (flat_map enable_tasks cfg) None Qs); simpl; auto.
+    apply (advance_J _ (map startup_task (startup_hooks cfg)) (flat_map enable_tasks cfg) None false Qs); simpl; auto.
     + apply Forall_forall. intros t Ht. apply in_map_iff in Ht as [h [<- _]]. apply startup_task_st_like.
     + apply Forall_forall. intros t Ht. apply in_flat_map in Ht as [h [_ Ht]]. unfold enable_tasks in Ht.
       apply in_app_or in Ht as [Ht|Ht]; destruct (h_kube h), (h_sched h); simpl in Ht;
@@ -411,10 +450,10 @@ Proof.
       assert (G : forall l qs, Forall idle_empty (tl qs) -> qs <> [] -> Forall idle_empty (tl (fold_left add_queue l qs))).
       { induction l as [|n l IH]; intros qs H Hne; [exact H|]. simpl. apply IH.
         - unfold add_queue. destruct (has_queue qs n); [exact H|]. destruct qs as [|x qs]; [contradiction|].
-          simpl in *. apply Forall_app. split; [exact H|]. constructor; [split; reflexivity | constructor].
+          simpl in *. apply Forall_app. split; [exact H|]. constructor; [repeat split; reflexivity | constructor].
         - unfold add_queue. destruct (has_queue qs n); [exact Hne|]. destruct qs; discriminate. }
       pose proof (G (flat_map (fun h => map kb_queue (h_kube h)) cfg)
-                    (fold_left add_queue (flat_map (fun h => map sb_queue (h_sched h)) cfg) [mkQ 0 (boot_main cfg) None])) as G2.
+                    (fold_left add_queue (flat_map (fun h => map sb_queue (h_sched h)) cfg) [mkQ 0 (boot_main cfg) None false])) as G2.
       rewrite E in G2. simpl in G2. apply G2.
       * apply G; [constructor | discriminate].
       * clear. generalize (flat_map (fun h => map sb_queue (h_sched h)) cfg).
@@ -428,6 +467,8 @@ Proof.
     unfold advance. simpl. destruct (stopped s); repeat split; auto.
   - left. rewrite Q. simpl. unfold advance. simpl. destruct (stopped s); repeat split; auto.
   - left. unfold advance. simpl. repeat split; auto.
+  - left. rewrite Q. simpl. unfold advance. simpl. destruct (stopped s); repeat split; auto.
+  - left. rewrite Q. simpl. unfold advance. simpl. destruct (stopped s); repeat split; auto.
 Qed.
 
 Theorem startup_first_inv acts : let s := exec cfg acts init in preboot s \/ J s.
@@ -447,7 +488,7 @@ Theorem startup_first acts M Qs :
   sched_on s = [] /\ unlocked s = [] /\ mon_started s = [] /\ Forall idle_empty Qs
   /\ exists t rest, q_items M = t :: rest /\ is_st t = true.
 Proof.
-  intros s Hq Hex. destruct (startup_first_inv acts) as [(Q & _)|[sts others mr Qs' Hq' Hst Hoth Hn Hp]].
+  intros s Hq Hex. destruct (startup_first_inv acts) as [(Q & _)|[sts others mr md Qs' Hq' Hst Hoth Hn Hp]].
   - fold s in Q. rewrite Q in Hq. discriminate.
   - fold s in Hq', Hp. rewrite Hq in Hq'. inversion Hq'; subst M Qs'. simpl in Hex.
     destruct sts as [|t sts'].
